@@ -137,6 +137,29 @@ def scenario(sh: Shard, seed, idx, action, t_crash, shape, regime, suspend):
                     except asyncio.TimeoutError:
                         out["harness_problem"] = "connection endpoint never created"
                     loop.creation_hook = None
+                elif shape == "in-consumer-callback":
+                    # the action lands while a consumer task of the connection is suspended inside the
+                    # client's event handler (RF-error events, handler sleeping 0.3-3 s)
+                    fut = loop.create_future()
+                    prev = mw.on_event
+
+                    def on_ev(man_, name):
+                        prev(man_, name)
+                        t_ = asyncio.current_task()
+                        if name == "ERROR_RF_ERROR" and t_ is not None and t_.get_name() == "SPA:RFErr handler" and not fut.done():
+                            fut.set_result(True)
+
+                    mw.on_event = on_ev
+                    mw.suspend_events = {"ERROR_RF_ERROR"}
+                    await mw.wait_state("CONNECTED", 60)
+                    mw.set_phase(Phase("rferr", 0))
+                    try:
+                        await asyncio.wait_for(fut, 200)
+                        await asyncio.sleep(t_crash)
+                        out["consumer_suspended_at_action"] = True
+                    except asyncio.TimeoutError:
+                        out["harness_problem"] = "no RF-error event was delivered"
+                    mw.on_event = prev
                 else:
                     await drive_shape(t_crash)
                 if shape == "socket-error":
@@ -242,6 +265,8 @@ def scenario(sh: Shard, seed, idx, action, t_crash, shape, regime, suspend):
         sh.count("socket_errors_injected", out.get("errors_injected", 0))
         if shape == "at-endpoint-creation":
             sh.count("actions_at_endpoint_creation")
+        if out.get("consumer_suspended_at_action"):
+            sh.count("actions_while_a_consumer_was_inside_a_client_callback")
         sh.see("states_at_crash", f"{action}:{out.get('state_at_crash')}")
         sh.nontrivial(f"{label}:{out.get('state_at_crash')}")
         if len(sh.samples) < 2:
@@ -366,6 +391,9 @@ def main(tier, seed):
             for t in (2.0, 4.5, 20.0, 65.0):
                 cases.append({"idx": idx, "action": action, "t": t, "shape": "socket-error", "regime": regime, "suspend": "none"})
                 idx += 1
+            for t in (0.0, 0.05, 0.2):
+                cases.append({"idx": idx, "action": action, "t": t, "shape": "in-consumer-callback", "regime": regime, "suspend": "seconds"})
+                idx += 1
     n = NCPU
     jobs = [{"seed": seed, "cases": cases[i::n], "ncycles": (12 if tier == "quick" else 50) if i < 2 else 0} for i in range(n)]
     run.absorb(run_shards("checks.c10", "shard", jobs, timeout=3400))
@@ -379,6 +407,7 @@ def main(tier, seed):
     run.need(run.counters.get("reconnect_cycles", 0) >= 10, "reconnect cycles not run")
     run.need(run.counters.get("socket_errors_injected", 0) >= 4, "socket errors before reset/exit not exercised")
     run.need(run.counters.get("actions_at_endpoint_creation", 0) >= 4, "no reset/exit landed exactly at an endpoint creation")
+    run.need(run.counters.get("actions_while_a_consumer_was_inside_a_client_callback", 0) >= 4, "no reset/exit landed while a consumer task was suspended inside a client callback")
     run.extra["crash_points"] = len(cases)
     return run.finish(
         rule="crash-point enumeration: a reset, and separately the context exit, injected at every instant of a 100 ms grid (thorough: 50 ms, three regimes, handlers none/tick) over locate + handshake, at steady-state instants and at instants of outage / RF-error scripts (error states), plus 12-50 reconnect cycles; one evaluation = one injected reset/exit; distinct = distinct (action, instant, shape, regime, handler, state at crash)",
